@@ -616,6 +616,13 @@ int32_t eccMulmod(psPool_t *pool,
         uint8_t map,
         pstm_int *tmp_int)
 {
+    /* 0*G is the point at infinity, which has no representation here (the
+       ladder below would hand back G itself): the caller has to treat a
+       zero scalar */
+    if (pstm_iszero(k) == PS_TRUE)
+    {
+        return PS_ARG_FAIL;
+    }
 # ifdef USE_CONSTANT_TIME_ECC_MULMOD
     return eccMulmodCt(pool, k, G, R, modulus, map, tmp_int);
 # else
